@@ -20,7 +20,7 @@ Val(i) == 4096 + 16 * i
 SymSp == {"sym", "Sym", "foo"}
 SecSp == {"aa", "Aa", "bb", "cc"}
 StkSp == {"", "st", "St"}
-Quals == {NoQ, QGlob} \cup {QParent(d) : d \in 0..4} \cup {QName(n) : n \in SecSp}
+Quals == {NoQ, QGlob} \cup {QParent(d) : d \in 0..9} \cup {QName(n) : n \in SecSp}
 PPQuals == {NoQ} \cup {QParent(d) : d \in 1..4} \cup {QName(n) : n \in SecSp}
 
 Defs(i, names, kinds) == {[k |-> "DEF", nm |-> nm, kind |-> kd, v |-> Val(i)] : nm \in names, kd \in kinds}
@@ -107,7 +107,7 @@ Init == /\ cs \in CaseModes /\ s = InitS(cs, PINNED) /\ ob = {}
 \* exhaustive alphabet for BFS (small)
 BfsAlphabet(i) ==
   CASE Mode = "scope" -> Cat(i, "SECTION") \cup {[k |-> "ENDSECTION", n |-> ""]} \cup Defs(i, {N("sym")}, {"equ", "set", "label"})
-                         \cup Refs({N("sym")}, {NoQ, QGlob, QParent(0), QParent(1), QName("aa")})
+                         \cup Refs({N("sym")}, {NoQ, QGlob, QParent(0), QParent(1), QParent(9), QName("aa")})
                          \cup {[k |-> kk, nm |-> N("sym"), q |-> q] : kk \in {"FORWARD", "PUBLIC", "GLOBAL"}, q \in {NoQ, QParent(1)}}
                          \cup Refs({NP(<<"aa", "sym">>)}, {NoQ})
     [] Mode = "temp"  -> Cat(i, "TDEF") \cup Cat(i, "TREF") \cup Defs(i, {DD("lp"), Dot("lp")}, {"label"})
